@@ -52,6 +52,9 @@ func FactsOf(fn *ssa.Function) *FuncFacts {
 					if !ok {
 						continue // TOP
 					}
+					if deadEdge(p, b) {
+						continue // edge of an If on a constant condition that is never taken
+					}
 					out := edgeFacts(pin, p, b)
 					if first {
 						in = out
@@ -84,6 +87,28 @@ func FactsOf(fn *ssa.Function) *FuncFacts {
 		}
 	}
 	return ff
+}
+
+// deadEdge: p ends in an If on a boolean constant and s is the successor that is never taken.
+func deadEdge(p, s *ssa.BasicBlock) bool {
+	if len(p.Instrs) == 0 {
+		return false
+	}
+	iff, ok := p.Instrs[len(p.Instrs)-1].(*ssa.If)
+	if !ok || p.Succs[0] == p.Succs[1] {
+		return false
+	}
+	b, isC := constBool(iff.Cond)
+	if !isC {
+		return false
+	}
+	return (s == p.Succs[0]) != b
+}
+
+// Reachable reports whether block b is reachable from the entry (constant branches pruned).
+func (ff *FuncFacts) Reachable(b *ssa.BasicBlock) bool {
+	_, ok := ff.In[b]
+	return ok
 }
 
 // pureOverDominating: c is a comparison/negation (no memory access, no call) whose operands are
